@@ -60,18 +60,18 @@ type Oracles struct {
 // RunStats is what a run observed (for the input distribution).
 type RunStats struct {
 	Acks, Syncs, SnapshotSyncs, Checkpoints, Errors int
-	Kinds                                            map[string]int
-	ErrKinds                                         []string
-	CkObs                                            []CkObs
-	VerifyObs                                        []VerifyObs
-	L0Obs                                            []L0Obs
-	L0Skipped                                        int
-	Outcomes                                         []string
+	Kinds                                           map[string]int
+	ErrKinds                                        []string
+	CkObs                                           []CkObs
+	VerifyObs                                       []VerifyObs
+	L0Obs                                           []L0Obs
+	L0Skipped                                       int
+	Outcomes                                        []string
 }
 
 func isLitestreamOp(k string) bool {
 	switch k {
-	case "sync", "rsync", "lckpt", "syncwait", "syncwaitreq", "snap", "compact", "close", "down", "up", "upsame", "autorecover":
+	case "sync", "rsync", "lckpt", "syncwait", "syncwaitreq", "snap", "snapfail", "compact", "close", "down", "up", "upsame", "autorecover":
 		return true
 	}
 	return false
@@ -321,6 +321,37 @@ func CheckLedger(e *Env) []Fail {
 		}
 		if ii.LockRows != 0 {
 			fails = append(fails, Fail{Sig: "txid-has-lock-row", What: fmt.Sprintf("restore to TXID %d contains a row in _litestream_lock", n)})
+		}
+		// "exactly one state": the same TXID through another plan — the level-0 chain alone
+		// (when it still starts at 1) and each snapshot-level file ending at n alone.
+		alts := map[string]func(int, *ltx.FileInfo) bool{}
+		if l0 := e.Listing(0); len(l0) > 0 && l0[0].MinTXID == 1 {
+			alts["the level-0 chain alone"] = func(lvl int, f *ltx.FileInfo) bool { return lvl == 0 }
+		}
+		for _, f := range e.Listing(litestream.SnapshotLevel) {
+			if f.MaxTXID == n && f.MinTXID == 1 {
+				alts["the snapshot-level file alone"] = func(lvl int, g *ltx.FileInfo) bool {
+					return lvl == litestream.SnapshotLevel && g.MaxTXID == n
+				}
+			}
+		}
+		for _, name := range []string{"the level-0 chain alone", "the snapshot-level file alone"} {
+			keep, ok := alts[name]
+			if !ok {
+				continue
+			}
+			img2, err := e.RestoreSubset(n, keep)
+			if err != nil {
+				continue // that view cannot reach n (retention, gap): no second plan
+			}
+			i2, err := InspectImage(e.Dir, img2)
+			if err != nil || i2.Integrity != "ok" {
+				fails = append(fails, Fail{Sig: "txid-two-states", What: fmt.Sprintf("TXID %d restored through %s is not a readable, consistent database (%v)", n, name, err)})
+				continue
+			}
+			if i2.K != ii.K || i2.Digest != ii.Digest {
+				fails = append(fails, Fail{Sig: "txid-two-states", What: fmt.Sprintf("TXID %d denotes two states: the default plan (%s) restores commit %d, %s restores commit %d", n, e.PlanText(n), ii.K, name, i2.K)})
+			}
 		}
 		if ii.K < lastK {
 			fails = append(fails, Fail{Sig: "txid-not-monotone", What: fmt.Sprintf("TXID %d maps to commit %d, earlier than commit %d of a lower TXID", n, ii.K, lastK)})
@@ -636,14 +667,20 @@ func genRestartIdleSnapshot(r *hx.Rand) History {
 		}
 	}
 	h.Ops = append(h.Ops, Op{K: "syncwait"})
-	h.Ops = append(h.Ops, Op{K: []string{"close", "down", "crash"}[r.Intn(3)]})
-	if h.Ops[len(h.Ops)-1].K != "close" {
-		h.Ops = append(h.Ops, Op{K: "up"})
-	} else {
-		h.Ops = append(h.Ops, Op{K: "up"})
+	if r.Chance(50) {
+		// a stale tail: the WAL grows, is checkpointed completely without being truncated and
+		// restarts at frame 0, so the file is longer than its live frames
+		h.Ops = append(h.Ops, Op{K: "ins", A: 4 + r.Intn(8), B: ps}, Op{K: "syncwait"},
+			Op{K: "lckpt", S: Modes[r.Intn(3)]}, Op{K: "ins", A: 1, B: 10}, Op{K: "syncwait"})
 	}
+	h.Ops = append(h.Ops, Op{K: []string{"close", "down", "crash"}[r.Intn(3)]})
+	h.Ops = append(h.Ops, Op{K: "up"})
 	for i, n := 0, r.Intn(3); i < n; i++ {
 		h.Ops = append(h.Ops, Op{K: "sync"})
+	}
+	if r.Chance(50) {
+		// a commit the snapshot must not contain: nothing has synced it yet
+		h.Ops = append(h.Ops, Op{K: "ins", A: 1 + r.Intn(2), B: []int{10, ps / 2}[r.Intn(2)]})
 	}
 	h.Ops = append(h.Ops, Op{K: "snap"})
 	if r.Chance(50) {
@@ -657,7 +694,7 @@ func GenC02(r *hx.Rand, thorough bool) History {
 	if r.Chance(15) {
 		return genLongWALRace(r)
 	}
-	if r.Chance(8) {
+	if r.Chance(12) {
 		return genRestartIdleSnapshot(r)
 	}
 	h := History{Cfg: GenCfg(r, thorough)}
@@ -729,10 +766,21 @@ func GenC13(r *hx.Rand, thorough bool) History {
 			h.Ops = append(h.Ops, genAppOp(r, ps))
 		case x < 90:
 			h.Ops = append(h.Ops, Op{K: "sync"})
-		case x < 95:
+		case x < 94:
 			h.Ops = append(h.Ops, Op{K: "syncwait"})
+		case x < 97:
+			h.Ops = append(h.Ops, Op{K: "snapfail", A: []int{0, 64, ps, 3 * ps}[r.Intn(4)]})
 		default:
 			h.Ops = append(h.Ops, Op{K: "sleep", A: 2})
+		}
+	}
+	if r.Chance(12) {
+		// the upload of a snapshot breaks off part-way; the application keeps writing past the
+		// thresholds: every later successful sync must still leave the WAL bounded
+		h.Ops = append(h.Ops, Op{K: "ins", A: 3 + r.Intn(4), B: ps}, Op{K: "sync"},
+			Op{K: "snapfail", A: []int{0, 64, ps}[r.Intn(3)]})
+		for i, k := 0, 2+r.Intn(4); i < k; i++ {
+			h.Ops = append(h.Ops, Op{K: "ins", A: 2 + r.Intn(6), B: ps + r.Intn(2*ps)}, Op{K: "sync"})
 		}
 	}
 	if r.Chance(25) {
@@ -777,7 +825,7 @@ type FinalState struct {
 	FreshDigest string // the same digest read through a connection opened after everything else finished (what any other process sees)
 	FreshErr    string
 	AppBlocked  []string // foreground application statements that failed with SQLITE_BUSY/locked while nothing else was running
-	AppBusy     bool // an application statement failed with SQLITE_BUSY/locked (it lost a race for a lock): the run is not the same application history as one where it succeeded
+	AppBusy     bool     // an application statement failed with SQLITE_BUSY/locked (it lost a race for a lock): the run is not the same application history as one where it succeeded
 }
 
 // RunFinal executes the history (ignoring litestream-only operations when
@@ -987,4 +1035,3 @@ type VerifyObs struct {
 	Line string
 	Real string
 }
-
